@@ -77,6 +77,8 @@ package importer
 //@   loop 0 step [every-media-type-is-grouped] ghost("grouped")
 //@   assert @mapupdate:map[string]*openapi3.MediaType [grouped-under-its-own-media-type] mapkey == mediaType && stored == obj
 //@   assert @call:importer.(*OpenAPI3Importer).fieldForMediaType [field-of-this-media-type] arg1 == mediaType && arg2 == obj
+//@   loop 2 invariant [named-per-media-type-iff-the-group-has-several] mtType == ite(pre(len(content)) > 1, mtMultiReq, mtReq)
+//@   assert @call:importer.(*OpenAPI3Importer).fieldForMediaType [naming-mode-of-the-group] arg3 == mtType
 //@   ghostclear @iter:2 added
 //@   ghostset @call:importer.(*Parameters).Add added
 //@   loop 2 step [every-media-type-becomes-a-body-parameter] ghost("added")
@@ -90,6 +92,8 @@ package importer
 //@   loop 0 step [every-media-type-is-grouped] ghost("grouped")
 //@   assert @mapupdate:map[string]*openapi3.MediaType [grouped-under-its-own-media-type] mapkey == mediaType && stored == obj
 //@   assert @call:importer.(*OpenAPI3Importer).fieldForMediaType [field-of-this-media-type] arg1 == mediaType && arg2 == obj
+//@   loop 2 invariant [named-per-media-type-iff-the-group-has-several] mtType == ite(pre(len(content)) > 1, mtMultiResp, mtResp)
+//@   assert @call:importer.(*OpenAPI3Importer).fieldForMediaType [naming-mode-of-the-group] arg3 == mtType
 //@   assert @setfield:F.importer.StandardType.Properties [fields-are-only-added] len(stored) == len(target.Properties) + 1 || len(stored) == 0
 //@   ghostclear @iter:2 fielded
 //@   ghostclear @iter:3 fielded
